@@ -77,7 +77,7 @@ func TestReplay(t *testing.T) {
 	}
 	start := time.Now()
 	stride, offset := envInt("VERIF_STRIDE", 1), envInt("VERIF_OFFSET", 0)
-	maxDiv := envInt("VERIF_MAX_DIV", 200)
+	maxDiv := envInt("VERIF_MAX_DIV", 1000000)
 	perWorld := envInt("VERIF_PER_WORLD", 400)
 	rotate := envInt("VERIF_ROTATE", 0) // 1: each behaviour under ONE table, chosen by (idx + seed) mod #tables
 	seed := envInt("VERIF_SEED", 1)
@@ -182,8 +182,8 @@ func TestReplay(t *testing.T) {
 					if len(s.Divs) > 0 {
 						sum.Diverging++
 					}
-					if len(r.Divs) > 5 {
-						r.Divs = r.Divs[:5]
+					if len(r.Divs) > 60 {
+						r.Divs = r.Divs[:60]
 					}
 					if sum.Diverging+sum.Errors <= maxDiv {
 						_ = enc.Encode(r)
